@@ -4,14 +4,18 @@
 //!
 //!   stress c09 <iterations> <threads> <seed>
 //!   stress c05 <iterations> <threads> <seed>
+//!   stress c03 <iterations> <threads> <seed>
 //!
 //! One line `ORACLE <prop> <what>` per failed oracle (at most 20), then `stats ...`.
 
 use harness::Rng;
-use lasso::{Capacity, MemoryLimits, Spur, ThreadedRodeo};
+use lasso::{Capacity, Key, MemoryLimits, Spur, ThreadedRodeo};
+use std::collections::BTreeMap;
 use std::num::NonZeroUsize;
 use std::sync::atomic::{AtomicBool, AtomicUsize, Ordering};
 use std::sync::Arc;
+
+static FIRST_PANIC: std::sync::Mutex<String> = std::sync::Mutex::new(String::new());
 
 fn spin_barrier(arrived: &AtomicUsize, n: usize) {
     arrived.fetch_add(1, Ordering::SeqCst);
@@ -188,14 +192,166 @@ fn c05(iters: usize, threads: usize, seed: u64) -> (Vec<String>, String) {
     (fails, format!("stats c05 iterations={iters} threads={threads} strings={strings} blocks={nblocks}"))
 }
 
+/// Same-string and different-string races on the interning path, incl. racing for the last keys of an
+/// 8-bit key type.  Oracles of C03 (also the concurrent clauses of C01, C02, C07, C10).
+fn c03_round<K: lasso::Key + std::hash::Hash + Send + Sync + 'static>(
+    it: usize,
+    threads: usize,
+    per: usize,
+    shared: usize,
+    capacity: Option<usize>,
+    seed: u64,
+    fails: &mut Vec<String>,
+) -> (usize, usize) {
+    let rodeo: Arc<ThreadedRodeo<K>> = Arc::new(ThreadedRodeo::with_capacity(Capacity::new(8, NonZeroUsize::new(16).unwrap())));
+    let arrived = Arc::new(AtomicUsize::new(0));
+    let mut hs = Vec::new();
+    for t in 0..threads {
+        let (rodeo, arrived) = (rodeo.clone(), arrived.clone());
+        let mut r = Rng::new(seed ^ ((it as u64) << 24) ^ ((t as u64) << 8) ^ 0x5bd1);
+        hs.push(std::thread::spawn(move || {
+            let mut told: Vec<(String, usize)> = Vec::new();
+            let mut failed: Vec<String> = Vec::new();
+            let mut bad: Vec<String> = Vec::new();
+            spin_barrier(&arrived, threads);
+            for j in 0..per {
+                // a shared string (raced by several threads) or one of this thread's own
+                let s = if r.chance(1, 3) { format!("shared-{}", r.below(shared as u64)) } else { format!("t{t}-{j}") };
+                let res = if r.chance(1, 5) {
+                    let st: &'static str = Box::leak(s.clone().into_boxed_str());
+                    rodeo.try_get_or_intern_static(st)
+                } else {
+                    rodeo.try_get_or_intern(&s)
+                };
+                match res {
+                    Ok(k) => {
+                        // resolves at once, and a lookup finds exactly this key
+                        if rodeo.try_resolve(&k) != Some(s.as_str()) {
+                            bad.push(format!("key-resolves-wrong: key {} returned for {s:?} resolves to {:?} right after the call", k.into_usize(), rodeo.try_resolve(&k)));
+                        }
+                        match rodeo.get(&s) {
+                            Some(g) if g.into_usize() == k.into_usize() => {}
+                            other => bad.push(format!("lookup-after-intern: get({s:?}) = {:?} after interning returned key {}", other.map(|x| x.into_usize()), k.into_usize())),
+                        }
+                        told.push((s, k.into_usize()));
+                    }
+                    Err(_) => failed.push(s),
+                }
+                if r.chance(1, 4) {
+                    // a key obtained through a lookup resolves too
+                    let probe = format!("shared-{}", r.below(shared as u64));
+                    if let Some(k) = rodeo.get(&probe) {
+                        if rodeo.try_resolve(&k) != Some(probe.as_str()) {
+                            bad.push(format!("looked-up-key-resolves-wrong: get({probe:?}) = {} resolves to {:?}", k.into_usize(), rodeo.try_resolve(&k)));
+                        }
+                        told.push((probe, k.into_usize()));
+                    }
+                }
+            }
+            (told, failed, bad)
+        }));
+    }
+    let mut told: Vec<(String, usize)> = Vec::new();
+    let mut failed: Vec<String> = Vec::new();
+    let ctx = format!("{threads} threads x {per} calls, {} keys, iteration {it}, seed {seed}", capacity.map(|c| c.to_string()).unwrap_or_else(|| "2^32".into()));
+    for h in hs {
+        let (t, f, bad) = h.join().unwrap();
+        for b in bad {
+            if fails.len() < 20 {
+                fails.push(format!("ORACLE C03 {b} ({ctx})"));
+            }
+        }
+        told.extend(t);
+        failed.extend(f);
+    }
+    let mut by_string: BTreeMap<&str, usize> = BTreeMap::new();
+    let mut by_key: BTreeMap<usize, &str> = BTreeMap::new();
+    for (s, k) in &told {
+        if let Some(k0) = by_string.insert(s.as_str(), *k) {
+            if k0 != *k && fails.len() < 20 {
+                fails.push(format!("ORACLE C03 two-keys-for-one-string: {s:?} was given keys {k0} and {k} ({ctx})"));
+            }
+        }
+        if let Some(s0) = by_key.insert(*k, s.as_str()) {
+            if s0 != s.as_str() && fails.len() < 20 {
+                fails.push(format!("ORACLE C03 one-key-for-two-strings: key {k} was given for {s0:?} and for {s:?} ({ctx})"));
+            }
+        }
+    }
+    let count = by_string.len();
+    // still valid at quiescence
+    for (s, k) in &by_string {
+        let key = K::try_from_usize(*k).unwrap();
+        if rodeo.try_resolve(&key) != Some(*s) && fails.len() < 20 {
+            fails.push(format!("ORACLE C03 key-resolves-wrong at quiescence: key {k} of {s:?} resolves to {:?} ({ctx})", rodeo.try_resolve(&key)));
+        }
+        if rodeo.get(*s).map(|x| x.into_usize()) != Some(*k) && fails.len() < 20 {
+            fails.push(format!("ORACLE C03 lookup-lost at quiescence: get({s:?}) = {:?}, interning had returned {k} ({ctx})", rodeo.get(*s).map(|x| x.into_usize())));
+        }
+    }
+    let dense = by_key.keys().copied().eq(0..count);
+    if !dense && fails.len() < 20 {
+        let keys: Vec<usize> = by_key.keys().copied().take(12).collect();
+        fails.push(format!("ORACLE C03 keys-not-dense: {count} distinct strings were interned but the keys in use are not 0..{count} (first keys {keys:?}) ({ctx})"));
+    }
+    if rodeo.len() != count && fails.len() < 20 {
+        fails.push(format!("ORACLE C03 len-disagrees: len() = {} with {count} distinct strings interned ({ctx})", rodeo.len()));
+    }
+    if let Some(cap) = capacity {
+        // C07: exactly `cap` distinct strings are admitted when more are offered
+        let mut offered: Vec<&str> = failed.iter().map(|s| s.as_str()).chain(by_string.keys().copied()).collect();
+        offered.sort();
+        offered.dedup();
+        if offered.len() > cap && count != cap && fails.len() < 20 {
+            fails.push(format!("ORACLE C03 capacity-not-exact: {} distinct strings offered to a {cap}-key interner, {count} admitted ({ctx})", offered.len()));
+        }
+        if count > cap && fails.len() < 20 {
+            fails.push(format!("ORACLE C03 more-keys-than-capacity: {count} strings hold keys of a {cap}-key type ({ctx})"));
+        }
+        for s in &failed {
+            if by_string.contains_key(s.as_str()) {
+                continue;
+            }
+            if rodeo.get(s).is_some() && fails.len() < 20 {
+                fails.push(format!("ORACLE C03 failed-intern-visible: interning {s:?} failed for every caller but get finds it ({ctx})"));
+            }
+        }
+    }
+    (told.len(), failed.len())
+}
+
+fn c03(iters: usize, threads: usize, seed: u64) -> (Vec<String>, String) {
+    let mut fails = Vec::new();
+    let (mut oks, mut errs) = (0, 0);
+    for it in 0..iters {
+        let (o, e) = if it % 3 == 2 {
+            // racing for the last keys of an 8-bit key type
+            let per = 255 / threads + 40;
+            c03_round::<lasso::MicroSpur>(it, threads, per, 24, Some(255), seed, &mut fails)
+        } else {
+            c03_round::<Spur>(it, threads, 40, 16, None, seed, &mut fails)
+        };
+        oks += o;
+        errs += e;
+    }
+    (fails, format!("stats c03 iterations={iters} threads={threads} keys_told={oks} failed_calls={errs}"))
+}
+
 fn main() {
     let a: Vec<String> = std::env::args().collect();
-    std::panic::set_hook(Box::new(|_| {}));
+    // remember the first panic (message and location) of any thread
+    std::panic::set_hook(Box::new(|info| {
+        let mut g = FIRST_PANIC.lock().unwrap_or_else(|e| e.into_inner());
+        if g.is_empty() {
+            *g = info.to_string().replace('\n', " ");
+        }
+    }));
     let iters: usize = a[2].parse().unwrap();
     let threads: usize = a[3].parse().unwrap();
     let seed: u64 = a[4].parse().unwrap();
     let r = std::panic::catch_unwind(|| match a[1].as_str() {
         "c09" => c09(iters, threads, seed),
+        "c03" => c03(iters, threads, seed),
         _ => c05(iters, threads, seed),
     });
     let out = std::io::stdout();
@@ -209,8 +365,9 @@ fn main() {
             writeln!(out, "{stats}").unwrap();
         }
         Err(e) => {
-            let msg = e.downcast_ref::<String>().cloned().or_else(|| e.downcast_ref::<&str>().map(|s| s.to_string())).unwrap_or_default();
-            writeln!(out, "ORACLE {} panic during the stress run: {msg}", if a[1] == "c09" { "C09" } else { "C05" }).unwrap();
+            let _ = e;
+            let msg = FIRST_PANIC.lock().unwrap_or_else(|e| e.into_inner()).clone();
+            writeln!(out, "ORACLE {} panic-in-library: a thread panicked during the uncontrolled run: {msg}", a[1].to_uppercase()).unwrap();
         }
     }
 }
